@@ -76,7 +76,8 @@ def check_run(rec, phase, h, labels_before, items, stats):
     started = False
     seen_evolving = False
     for e in evs:
-        if e['k'] == 'mark' and e['what'] == 'evolve_start':
+        if e['k'] == 'mark' and e['what'] in ('evolve_start',
+                                              'prepare_start'):
             started = True
         elif e['k'] == 'signal' and e['name'] == 'evolving':
             seen_evolving = True
@@ -163,6 +164,42 @@ def check_run(rec, phase, h, labels_before, items, stats):
                                   app=cur['app'], tables=[target]))
     stats['inrun_statements_attributed'] = stats.get(
         'inrun_statements_attributed', 0) + inrun_seen
+    # (d2) creating_models / created_models name exactly the models whose
+    #      tables are created between them
+    cur = None
+    made = []
+    for e in evs:
+        if e['k'] == 'signal' and e['name'] == 'creating_models':
+            cur, made = e, []
+        elif e['k'] == 'sql' and cur is not None and e['ok']:
+            m = re.match(r'\s*CREATE TABLE "([^"]+)"', e['sql'])
+            if m and m.group(1) != 'TEMP_TABLE':
+                made.append(m.group(1))
+        elif e['k'] == 'signal' and e['name'] == 'created_models' and \
+                cur is not None:
+            app = cur.get('app')
+            names = cur.get('model_names') or []
+            if app in h.specs[-1] and hasattr(h, 'steps') and \
+                    not getattr(h, 'is_shim', False):
+                want = set()
+                ok_names = True
+                for n in names:
+                    if n not in h.specs[-1][app]:
+                        ok_names = False
+                        continue
+                    want.update(S.owned_tables(h.specs[-1], app, n))
+                stats['created_pairs_checked'] = stats.get(
+                    'created_pairs_checked', 0) + 1
+                got = set(t for t in made)
+                if not ok_names or not want <= got or \
+                        (got - want) & set(
+                            t for m2 in h.specs[-1][app]
+                            for t in S.owned_tables(h.specs[-1], app, m2)):
+                    items.append(dict(
+                        ctx, type='CREATED_MODELS_PAYLOAD', app=app,
+                        named=sorted(names), created=sorted(got),
+                        expected_tables=sorted(want)))
+            cur = None
     # (e) lock released
     if rec['lock_after'] != rec['lock_before']:
         items.append(dict(ctx, type='EVOLVE_LOCK_LEAKED',
@@ -230,6 +267,7 @@ def run_handover(desc):
     finally:
         proj.cleanup()
     h = _Shim()
+    h.is_shim = True
     h.specs = [{'app1': v, 'app2': {'Z': {'fields': [], 'meta': {}}}}
                for v in b['versions']]
     h.steps = [[]]
@@ -248,7 +286,8 @@ def run_case(desc):
         case, key = extra
         stats, items = {'handovers': 1}, []
     else:
-        h, res = faultlab.run_upgrade('C17', desc, max_k=40, scope='all')
+        h, res = faultlab.run_upgrade('C17', desc, max_k=40, scope='all',
+                                      with_rename=True)
         case = faultlab.case_of(h)
         key = S.canon([h.specs, h.steps])
         stats, items = {'upgrades': 1}, []
